@@ -38,6 +38,9 @@ def _ledger_models(tier, invariants, properties, epsilon_model=False):
                         lots=[{"S5": 1, "F5": -1}, {"F5": 2}], invariants=invariants, properties=properties))
         ms.append(model("sf-etf-g1", ["S1", "G1"], BASE_OPS, 4, fees="paid", bids=(8, 10), dqs=(-3, -1, 1, 2),
                         invariants=invariants, properties=properties))
+        # the top of the legal margin range: a contract margined at 100 %
+        ms.append(model("sf-h2", ["H2"], BASE_OPS + ["lots"], 5, fees="paid", dqs=(-1, 2), lots=[{"H2": -1}],
+                        invariants=invariants, properties=properties))
     else:
         for fees in ("paid", "free"):
             ms.append(model("sf-%s" % fees, ["S5", "F5"], BASE_OPS + ["lots"], 6, fees=fees, dqs=(-1, 2),
@@ -101,6 +104,10 @@ def c13(tier, seed):
               bids=(8,), spreads=(2,), dqs=(-1, 1), lots=[{"S5": 1, "F5": -1}, {"F5": 1}, {}],
               invariants=inv, properties=props),
     ]
+    # a request previewed while quotes were there and executed after one of them was lost
+    ms.append(model("faults-preview", ["S1", "F4"], ["quote", "half", "disc", "prepare"], 5, fees="free", bids=(8,), spreads=(0,),
+                    reqs=[req({"S1": F(1, 2), "F4": F(1, 2)}), req({"S1": F(1), "F4": F(-2)}, measure="lots")], maxrebal=1,
+                    invariants=inv, properties=props))
     if tier != "quick":
         ms.append(model("faults-w", ["S1", "G1"], ["quote", "half", "disc", "trade", "value", "rebal"], 5, fees="free",
                         bids=(8,), spreads=(0, 2), dqs=(-1, 1),
